@@ -64,6 +64,16 @@ def exact_package():
             def __getattr__(self, k):
                 return getattr(np, k)
         P.quadrature.np = NPX()
+
+        class NPN:
+            """numpy proxy for the exact copy of src/norms.py: np.allclose cannot compare object arrays of Fractions"""
+            @staticmethod
+            def allclose(a, b, *args, **kw):
+                return bool(np.allclose(np.array(a, dtype=float), np.array(b, dtype=float), *args, **kw))
+
+            def __getattr__(self, k):
+                return getattr(np, k)
+        P.norms.np = NPN()
         P._leg_patched = True
     return P
 
